@@ -724,4 +724,124 @@ theorem execList_routes (cfg : Cfg) : ∀ (ds : List RouteDef) (st : RS),
     | ok st1 => simp only; exact execList_routes cfg rest st1
     | error e => rfl
 
+/-! ### the router-wide lists after a program -/
+section
+open Spec
+/-- inside a group (`lv ≠ []`) nothing changes the global list -/
+theorem useL_inside (ls : LScope) (hs : List H) (h : ls.lv ≠ []) :
+    (useL ls hs).globals = ls.globals ∧ (useL ls hs).lv ≠ [] := by
+  unfold useL
+  split
+  · rename_i h0; exact absurd h0 h
+  · simp
+
+mutual
+theorem denote_inside (cfg : Cfg) (ls : LScope) (h : ls.lv ≠ []) : (s : Stmt) →
+    (denote cfg ls s).2.globals = ls.globals ∧ (denote cfg ls s).2.lv ≠ []
+  | .use hs => by simp only [denote]; exact useL_inside ls hs h
+  | .route _ => ⟨rfl, h⟩
+  | .group p mws body => by
+    have := denoteList_inside cfg (push ls p mws) (by simp [push]) body
+    simp only [denote, pop]
+    exact ⟨this.1, h⟩
+  | .controller p mws body => by
+    have := denoteList_inside cfg (push ls p mws) (by simp [push]) body
+    simp only [denote, pop]
+    exact ⟨this.1, h⟩
+  | .resource _ _ => ⟨rfl, h⟩
+  | .notFound _ => ⟨rfl, h⟩
+  | .notAllowed _ => ⟨rfl, h⟩
+theorem denoteList_inside (cfg : Cfg) (ls : LScope) (h : ls.lv ≠ []) : (l : List Stmt) →
+    (denoteList cfg ls l).2.globals = ls.globals ∧ (denoteList cfg ls l).2.lv ≠ []
+  | [] => ⟨rfl, h⟩
+  | s :: rest => by
+    have h1 := denote_inside cfg ls h s
+    have h2 := denoteList_inside cfg (denote cfg ls s).2 h1.2 rest
+    simp only [denoteList]
+    exact ⟨h2.1.trans h1.1, h2.2⟩
+end
+
+/-- at top level the global list collects exactly the top-level `Use` arguments -/
+theorem denoteList_top (cfg : Cfg) : ∀ (l : List Stmt) (ls : LScope), ls.lv = [] →
+    (denoteList cfg ls l).2.globals = ls.globals ++ topUses l ∧ (denoteList cfg ls l).2.lv = []
+  | [], ls, h => by simp [denoteList, topUses, h]
+  | s :: rest, ls, h => by
+    simp only [denoteList]
+    cases s with
+    | use hs =>
+      have e : denote cfg ls (.use hs) = ([], { ls with globals := ls.globals ++ hs }) := by
+        simp [denote, useL, h]
+      rw [e]
+      have := denoteList_top cfg rest { ls with globals := ls.globals ++ hs } h
+      simp only [topUses]
+      exact ⟨by rw [this.1]; simp, this.2⟩
+    | route d => simpa [denote, topUses] using denoteList_top cfg rest ls h
+    | group p mws body =>
+      have hb := denoteList_inside cfg (push ls p mws) (by simp [push]) body
+      have := denoteList_top cfg rest (pop ls (denoteList cfg (push ls p mws) body).2) (by simp [pop, h])
+      simp only [denote, topUses]
+      refine ⟨by rw [this.1]; simp only [pop]; rw [hb.1]; rfl, this.2⟩
+    | controller p mws body =>
+      have hb := denoteList_inside cfg (push ls p mws) (by simp [push]) body
+      have := denoteList_top cfg rest (pop ls (denoteList cfg (push ls p mws) body).2) (by simp [pop, h])
+      simp only [denote, topUses]
+      refine ⟨by rw [this.1]; simp only [pop]; rw [hb.1]; rfl, this.2⟩
+    | resource rd mws => simpa [denote, topUses] using denoteList_top cfg rest ls h
+    | notFound hs =>
+      have := denoteList_top cfg rest { ls with noRoute := hs } h
+      simpa [denote, topUses] using this
+    | notAllowed hs =>
+      have := denoteList_top cfg rest { ls with noAllowed := hs } h
+      simpa [denote, topUses] using this
+
+mutual
+theorem denote_nf (cfg : Cfg) (ls : LScope) : (s : Stmt) →
+    (denote cfg ls s).2.noRoute = lastNF ls.noRoute s ∧ (denote cfg ls s).2.noAllowed = lastNA ls.noAllowed s
+  | .use hs => by
+    simp only [denote, useL, lastNF, lastNA]
+    split <;> exact ⟨rfl, rfl⟩
+  | .route _ => ⟨rfl, rfl⟩
+  | .group p mws body => by
+    have := denoteList_nf cfg (push ls p mws) body
+    simp only [denote, pop, lastNF, lastNA]
+    exact this
+  | .controller p mws body => by
+    have := denoteList_nf cfg (push ls p mws) body
+    simp only [denote, pop, lastNF, lastNA]
+    exact this
+  | .resource _ _ => ⟨rfl, rfl⟩
+  | .notFound _ => ⟨rfl, rfl⟩
+  | .notAllowed _ => ⟨rfl, rfl⟩
+theorem denoteList_nf (cfg : Cfg) (ls : LScope) : (l : List Stmt) →
+    (denoteList cfg ls l).2.noRoute = lastNFList ls.noRoute l ∧
+    (denoteList cfg ls l).2.noAllowed = lastNAList ls.noAllowed l
+  | [] => ⟨rfl, rfl⟩
+  | s :: rest => by
+    have h1 := denote_nf cfg ls s
+    have h2 := denoteList_nf cfg (denote cfg ls s).2 rest
+    simp only [denoteList, lastNFList, lastNAList]
+    rw [h2.1, h2.2, h1.1, h1.2]
+    exact ⟨rfl, rfl⟩
+end
+
+/-- `Use` calls at top level only extend the global list -/
+theorem denList_uses_top (cfg : Cfg) : ∀ (l : List (List H)) (sc : Scope), sc.pfx = [] →
+    denList cfg sc (l.map Stmt.use) = ([], { sc with globals := sc.globals ++ l.flatten })
+  | [], sc, _ => by simp [denList]
+  | hs :: rest, sc, h => by
+    have e : useScope sc hs = { sc with globals := sc.globals ++ hs } := by simp [useScope, h]
+    simp only [List.map, denList, den, e]
+    rw [denList_uses_top cfg rest { sc with globals := sc.globals ++ hs } h]
+    simp
+
+
+end
+
+/-- `execList_den` in the form used by the property files -/
+theorem execList_den_split (cfg : Cfg) (st st' : RS) (prog : List Stmt) (h : execList cfg st prog = .ok st') :
+    st'.routes = st.routes ++ (denList cfg st.toScope prog).1 ∧ st'.toScope = (denList cfg st.toScope prog).2 := by
+  have := execList_den cfg st st' prog h
+  subst this
+  exact ⟨rfl, rfl⟩
+
 end Rux.Reg
